@@ -244,12 +244,6 @@ func Yield(class Class, label string) {
 		s.mu.Unlock()
 		return
 	}
-	r, ok := s.ranks[p.gid]
-	if !ok {
-		r = len(s.ranks)
-		s.ranks[p.gid] = r
-	}
-	p.rank = r
 	s.parked = append(s.parked, p)
 	s.mu.Unlock()
 	<-p.ch
@@ -379,6 +373,17 @@ func (s *Sched) Run(done func() bool) error {
 			continue
 		}
 		sort.SliceStable(s.parked, func(i, j int) bool { return s.parked[i].gid < s.parked[j].gid })
+		// Canonical goroutine names are handed out here, at a quiescent point and in
+		// creation order, so they do not depend on which goroutine happened to reach
+		// its first yield point first.
+		for _, q := range s.parked {
+			r, ok := s.ranks[q.gid]
+			if !ok {
+				r = len(s.ranks)
+				s.ranks[q.gid] = r
+			}
+			q.rank = r
+		}
 		i := s.pick(n)
 		p := s.parked[i]
 		s.parked = append(s.parked[:i], s.parked[i+1:]...)
